@@ -56,11 +56,22 @@ def env():
     e.DataType, e.Pass, e.PassPlacement, e.Op, e.Operation, e.Padding, e.NpuBlockType = DataType, Pass, PassPlacement, Op, Operation, Padding, NpuBlockType
     e.Shape4D, e.Tensor, e.TensorPurpose, e.TensorFormat, e.MemType, e.MemArea, e.rm = Shape4D, Tensor, TensorPurpose, TensorFormat, MemType, MemArea, resampling_mode
     e.arch = af.create_default_arch(af.Accelerator.Ethos_U55_128)
-    # geometry does not depend on encoded weights: stub the encoder the scheduler reaches through its module
-    e.scheduler.weight_compressor = types.SimpleNamespace(
-        encode_weight_and_scale_tensor=lambda *a, **k: (None, None))
     _ENV = e
     return e
+
+
+class stubbed:
+    """geometry does not depend on encoded weights: while a case is being built, the encoder the scheduler reaches
+    through its module attribute is replaced.  Scoped (not a process-wide patch): real compilations forked from the
+    same parent process (c10.validate_compiled) must see the real encoder."""
+
+    def __enter__(self):
+        e = env()
+        self.saved = e.scheduler.weight_compressor
+        e.scheduler.weight_compressor = types.SimpleNamespace(encode_weight_and_scale_tensor=lambda *a, **k: (None, None))
+
+    def __exit__(self, *a):
+        env().scheduler.weight_compressor = self.saved
 
 
 PADS = {"SAME": "SAME", "VALID": "VALID", "EXPLICIT": "EXPLICIT"}
@@ -118,6 +129,11 @@ def case_shapes(case):
 
 def build(case):
     """-> dict with real sched_ops, schedule, tensors for the case."""
+    with stubbed():
+        return _build(case)
+
+
+def _build(case):
     e = env()
     S4 = e.Shape4D
     shapes = case_shapes(case)
@@ -308,7 +324,7 @@ def run_case(case):
     t = case["id"]
     events = []
     # header: the operator geometry (from the case) and what the scheduler-side code decided
-    hdr = {"t": t, "e": "Hdr", "n": b["n"], "ops": []}
+    hdr = {"t": t, "e": "Hdr", "n": b["n"], "model": True, "ops": []}
     for i, (so, m) in enumerate(zip(sched_ops, metas)):
         o = m["o"]
         c = sched.cost_map[so]
@@ -320,6 +336,7 @@ def run_case(case):
         i2 = _ints(so.parent_ps.ifm_shapes[1].as_list())[1:] if o["cls"] == "ew2" else []
         hdr["ops"].append({
             "cls": o["cls"], "sp": o["roff"] is not None, "up": UPS[o["up"]], "pt": o["pad"], "i2": i2,
+            "chk": True, "full": i == b["n"] - 1,
             "h": int(c.stripe.height), "hin": int(c.stripe_input.height), "buf": int(buf.height) if buf is not None else 0,
             "store": int(tin.storage_shape[-3]) if len(tin.storage_shape) >= 3 else 0,
             "ax": {"H": _axis(m, 0, o["kh"], o["dh"], o["sh"], (o["ep"][0], o["ep"][2]), ro, rs, wo),
